@@ -265,8 +265,7 @@ func runC03(c *Ctx, d c03Desc) {
 		return
 	}
 	defer w.Close()
-	hk := NewHookCtl(w.E.Log)
-	defer hk.ReleaseAll()
+	hk := w.Hk
 	pup := func(*vh.Proc) vh.ExecPlan { return vh.ExecPlan{Behave: vh.Puppet{ExitOnTerm: true}.Run} }
 	w.RtPlan = func(gen int, p *vh.Proc) vh.ExecPlan { return pup(p) }
 	w.ExtPlan = func(base string, gen int, p *vh.Proc) vh.ExecPlan { return pup(p) }
